@@ -115,6 +115,9 @@ def prop_eval(e: ast.expr, env: Dict[str, bool], names: Dict[str, str]) -> bool:
         raise PropError(f"name {e.id}")
     if isinstance(e, ast.UnaryOp) and isinstance(e.op, (ast.USub, ast.Not, ast.Invert)):
         return not prop_eval(e.operand, env, names)
+    if isinstance(e, ast.BoolOp):
+        vals = [prop_eval(v, env, names) for v in e.values]
+        return all(vals) if isinstance(e.op, ast.And) else any(vals)
     if isinstance(e, ast.BinOp) and isinstance(e.op, ast.BitAnd):
         return prop_eval(e.left, env, names) and prop_eval(e.right, env, names)
     if isinstance(e, ast.BinOp) and isinstance(e.op, ast.BitOr):
